@@ -24,6 +24,7 @@ func init() {
 			"when the strict reference parser accepts an input (and no id-15 element is involved) header length, payload, padding size and every extension value are compared with the RFC layout",
 			"mutations: every truncation and every single-byte replacement by {00,01,0F,10,7F,80,FF,b^01,b^80} of the wire images of the C01 reduced space",
 			"histories: a corpus of one representative per outcome class (about 250 inputs); all ordered pairs, and all triples over the first 40 (quick) / 90 (thorough)",
+			"near-identical histories: 6 valid images (CSRC list, one-byte / two-byte / legacy block, payload, RTP padding) each followed or preceded, in the same receiver, by every copy of itself with one octet replaced by {b^01, b^80, 00, FF}: an input that differs from the receiver's previous one in a single field",
 			"result of a reused receiver = return values and, on success, version/P/X/M/PT/seq/ts/SSRC, CSRC list, profile+ids+values if X, payload, padding size, and the re-marshalled bytes; state after a failed decode, nil vs empty slices and a stale ExtensionProfile while X is clear are not part of the result",
 		},
 		Scenarios: []mc.Scenario{
@@ -34,6 +35,7 @@ func init() {
 			{Name: "mutations-of-valid-images", Tiers: "qt", ShardDepth: 4, Run: c02Mutations},
 			{Name: "reuse-pairs", Tiers: "qt", ShardDepth: 2, Run: c02Pairs},
 			{Name: "reuse-triples", Tiers: "qt", ShardDepth: 2, Run: c02Triples},
+			{Name: "reuse-near-identical-pairs", Tiers: "qt", ShardDepth: 2, Run: c02NearPairs},
 		},
 	})
 }
@@ -531,18 +533,28 @@ func (a c02Result) diff(b c02Result) string {
 
 func c02History(c *mc.Ctx, idx []int) {
 	corpus := c02Corpus(c)
+	in := make([][]byte, len(idx))
+	for i, k := range idx {
+		in[i] = corpus[k]
+	}
+	c02HistoryOf(c, in)
+}
+
+// c02HistoryOf decodes the inputs one after the other into one receiver and compares what the
+// last decode gives with a fresh receiver.
+func c02HistoryOf(c *mc.Ctx, in [][]byte) {
 	var h rtp.Header
 	var p rtp.Packet
 	var last c02Result
-	bufs := make([][]byte, len(idx))
-	for i, k := range idx {
-		bufs[i] = clone(corpus[k])
+	bufs := make([][]byte, len(in))
+	for i, b := range in {
+		bufs[i] = clone(b)
 		last = c02Observe(&h, &p, bufs[i])
 	}
-	c.Ops(4 * len(idx))
+	c.Ops(4 * len(in))
 	var fh rtp.Header
 	var fp rtp.Packet
-	fb := clone(corpus[idx[len(idx)-1]])
+	fb := clone(in[len(in)-1])
 	fresh := c02Observe(&fh, &fp, fb)
 	if c.Verbose() {
 		s := ""
@@ -625,4 +637,36 @@ func c02Large(c *mc.Ctx) {
 		c.NonTrivial()
 	}
 	c.Outcome(cls)
+}
+
+// c02NearBases: valid images in which every kind of field is present.
+var c02NearBases = [][]byte{
+	// CC=2, no extension, payload
+	{0x82, 0x60, 0x12, 0x34, 0x01, 0x02, 0x03, 0x04, 0xCA, 0xFE, 0xBA, 0xBE, 0, 0, 0, 0x11, 0, 0, 0, 0x22, 0xA1, 0xA2, 0xA3},
+	// CC=1, one-byte block with two elements, payload, padding 2
+	{0xB1, 0xE0, 0xFF, 0xFF, 0x80, 0x00, 0x00, 0x00, 0x00, 0x00, 0x00, 0x01, 0xDE, 0xAD, 0xBE, 0xEF, 0xBE, 0xDE, 0x00, 0x02, 0x11, 0x51, 0x52, 0x20, 0x61, 0x00, 0x00, 0x00, 0xA1, 0xA2, 0x00, 0x02},
+	// two-byte block, two elements (one empty), payload
+	{0x90, 0x00, 0x00, 0x01, 0x00, 0x00, 0x00, 0x01, 0x11, 0x22, 0x33, 0x44, 0x10, 0x00, 0x00, 0x02, 0x07, 0x02, 0x51, 0x52, 0x09, 0x00, 0x00, 0x00, 0xA1},
+	// legacy block of one word, CC=2, no payload
+	{0x92, 0x7F, 0x80, 0x00, 0xFF, 0xFF, 0xFF, 0xFF, 0x00, 0x00, 0x00, 0x00, 0x0A, 0x0B, 0x0C, 0x0D, 0x1A, 0x1B, 0x1C, 0x1D, 0x12, 0x34, 0x00, 0x01, 0x71, 0x72, 0x73, 0x74},
+	// plain header, padding only
+	{0xA0, 0x60, 0x00, 0x00, 0x00, 0x00, 0x00, 0x00, 0x00, 0x00, 0x00, 0x00, 0x00, 0x00, 0x00, 0x04},
+	// CC=15
+	append([]byte{0x8F, 0x08, 0x00, 0x07, 0x00, 0x00, 0x10, 0x00, 0x01, 0x01, 0x01, 0x01}, fill(60+2, 0x31)...),
+}
+
+func c02NearPairs(c *mc.Ctx) {
+	base := mc.From(c, c02NearBases)
+	pos := c.Pick(len(base))
+	variant := clone(base)
+	b := base[pos]
+	variant[pos] = []byte{b ^ 0x01, b ^ 0x80, 0x00, 0xFF}[c.Pick(4)]
+	if variant[pos] == b {
+		return // this replacement leaves the octet as it is
+	}
+	if c.Bool() {
+		c02HistoryOf(c, [][]byte{base, variant})
+	} else {
+		c02HistoryOf(c, [][]byte{variant, base})
+	}
 }
